@@ -191,8 +191,8 @@ def run(run):
     negative_control_replay(run, b, cases)
 
     # ---- impl -> spec
-    seeds = [run.seed] if q else [run.seed, run.seed + 1, run.seed + 2]
-    nev = 60000 if q else 250000
+    seeds = [run.seed] if q else [run.seed, run.seed + 1, run.seed + 2, run.seed + 3]
+    nev = 100000 if q else 400000
     distinct_events = set()
     first_trace = None
     for k, sd in enumerate(seeds):
@@ -276,6 +276,38 @@ def run(run):
         "a compiled-data wrapper is not run where its core twin has just panicked on the same arguments (it would poison the process-wide provider lock; panics are C03's subject)",
         "Now::* (reads the clock) and functions whose core is 'Not yet implemented' are listed in the method table as excluded and not exercised",
     ]
+
+
+def _same(a, b):
+    ka, kb = a.get("kind"), b.get("kind")
+    return ka == kb and not str(ka).startswith("unknown") and (ka != "ok" or a.get("val") == b.get("val"))
+
+
+def replay_file(path, seed):
+    """bin/vcheck C19 --replay FILE: re-execute the wrapper/core pair of a violation file against the current tree and
+    re-judge it (wrapper = core, and = the spec's expectation recorded in the file where the spec claimed one)."""
+    v = json.load(open(path))
+    first = v["first"]
+    b = lib.build_harness("dev")
+    args = first.get("args") or first.get("event", {}).get("args")
+    exp = first.get("expected") or {}
+    if first.get("direction") == "trace":
+        exp = exp.get("spec", {"kind": "same"})
+    r = lib.sh([b, "exec", json.dumps(dict(op=first["op"], args=args))])
+    line = [l for l in r.stdout.strip().splitlines() if l.startswith("{")]
+    if not line:
+        print("TOOL-ERROR: harness produced no outcome:", r.stdout[-400:])
+        return 2
+    obs = json.loads(line[-1])
+    print("case:", json.dumps(dict(op=first["op"], args=args)))
+    print("spec expectation:", json.dumps(exp))
+    print("observed now:", json.dumps(obs))
+    ok = _same(obs["wrapper"], obs["core"]) and (exp.get("kind") in (None, "same") or _same(obs["wrapper"], exp))
+    if ok:
+        print("wrapper = core" + ("" if exp.get("kind") in (None, "same") else " = spec") + ": the case now agrees")
+        return 0
+    print(f"VIOLATION property=C19 replay={path}")
+    return 1
 
 
 if __name__ == "__main__":
